@@ -72,8 +72,9 @@ namespace RecInt
             return "RecInt::rint<" + std::to_string(K)+ ">";
         }
 
-        // Cast
-        template <typename T> operator T() const { return static_cast<T>(Value); }
+        // Cast (a floating T must see the sign: the limbs of a negative value are its two's complement, not its magnitude)
+        template <typename T> operator T() const
+        { return (std::is_floating_point<T>::value && isNegative()) ? static_cast<T>(-static_cast<T>(-Value)) : static_cast<T>(Value); }
 
         // Quick sign evaluation
         // *this < 0
